@@ -1,14 +1,11 @@
 package c12
 
 import (
-	"regexp"
 	"testing"
 	"unicode/utf8"
 
 	"github.com/openGemini/openGemini/lib/util/lifted/influx/influxql"
 )
-
-var inSetStart = regexp.MustCompile(`(?i)in\s*\(`)
 
 // FuzzExprRD: native fuzzing of ParseExpr o String (thorough tier). Arbitrary text; whatever ParseExpr
 // accepts completely must survive printing and re-reading. Trees in a known-defect class are skipped.
@@ -16,17 +13,13 @@ func FuzzExprRD(f *testing.F) {
 	for _, s := range []string{
 		"a = 1", "a / 2.5 > 1.2", "a = 'x\\'y'", "\"we ird\" = 'a\\\\b'", "a =~ /x\\/y/", "a - (b - c) > 1", "(a + b) * c = 3",
 		"a = 9223372036854775807", "a = -9223372036854775808", "time > now() - 5m", "a = 'line\\nbreak'", "a AND (b OR c)", "a OR b AND c",
-		"a % 3 = 1", "f(a, 1, 'x') > 2", "a::tag = 'x'", "a::field > 1", "a != 'x' AND b !~ /y/", "a = 0.1", "- a > 1", "a > 5s", "a IN (1, 'x')",
+		"a % 3 = 1", "f(a, 1, 'x') > 2", "a::tag = 'x'", "a::field > 1", "a != 'x' AND b !~ /y/", "a = 0.1", "- a > 1", "a > 5s", "a IN (1, 'x')", "a IN ('', 2.5)", "a NOTIN (1)", "a | b = 1", "a & 3 ^ c", "a > 1500ns",
 		"a MATCH 'x'", "a LIKE '%x'", "count(*)", "count(/re/)", "18446744073709551615", "a.b = 1", "\"select\" = true", "+ 1.5", "- (a)", "1h30m", "*::tag",
 	} {
 		f.Add(s)
 	}
 	f.Fuzz(func(t *testing.T, text string) {
 		if !utf8.ValidString(text) || len(text) > 400 {
-			return
-		}
-		// ParseExpr("a IN (1") never returns (parseSet loops at end of input): a first-parse hang, not this property
-		if inSetStart.MatchString(text) {
 			return
 		}
 		var out outcome
